@@ -56,3 +56,96 @@ func (x *Value) Store(v interface{}) {
 	x.v = v
 }
 func (x *Value) Load() interface{} { pt("Value.Load", x); return x.v }
+
+func StoreInt32(p *int32, v int32)      { pt("StoreInt32", p); *p = v }
+func LoadInt32(p *int32) int32          { pt("LoadInt32", p); return *p }
+func AddInt32(p *int32, d int32) int32  { pt("AddInt32", p); *p += d; return *p }
+func SwapInt32(p *int32, v int32) int32 { pt("SwapInt32", p); o := *p; *p = v; return o }
+func CompareAndSwapInt32(p *int32, o, n int32) bool {
+	pt("CompareAndSwapInt32", p)
+	if *p == o {
+		*p = n
+		return true
+	}
+	return false
+}
+
+// Swap mirrors atomic.Value.Swap.
+func (x *Value) Swap(v interface{}) interface{} {
+	pt("Value.Swap", x)
+	o := x.v
+	x.v = v
+	return o
+}
+
+// CompareAndSwap mirrors atomic.Value.CompareAndSwap.
+func (x *Value) CompareAndSwap(o, n interface{}) bool {
+	pt("Value.CompareAndSwap", x)
+	if x.v == o {
+		x.v = n
+		return true
+	}
+	return false
+}
+
+// Typed atomics (sync/atomic since Go 1.19).
+
+type Int32 struct{ v int32 }
+
+func (x *Int32) Load() int32                    { return LoadInt32(&x.v) }
+func (x *Int32) Store(v int32)                  { StoreInt32(&x.v, v) }
+func (x *Int32) Add(d int32) int32              { return AddInt32(&x.v, d) }
+func (x *Int32) Swap(v int32) int32             { return SwapInt32(&x.v, v) }
+func (x *Int32) CompareAndSwap(o, n int32) bool { return CompareAndSwapInt32(&x.v, o, n) }
+
+type Int64 struct{ v int64 }
+
+func (x *Int64) Load() int64                    { return LoadInt64(&x.v) }
+func (x *Int64) Store(v int64)                  { StoreInt64(&x.v, v) }
+func (x *Int64) Add(d int64) int64              { return AddInt64(&x.v, d) }
+func (x *Int64) Swap(v int64) int64             { return SwapInt64(&x.v, v) }
+func (x *Int64) CompareAndSwap(o, n int64) bool { return CompareAndSwapInt64(&x.v, o, n) }
+
+type Uint32 struct{ v uint32 }
+
+func (x *Uint32) Load() uint32                    { return LoadUint32(&x.v) }
+func (x *Uint32) Store(v uint32)                  { StoreUint32(&x.v, v) }
+func (x *Uint32) Add(d uint32) uint32             { return AddUint32(&x.v, d) }
+func (x *Uint32) Swap(v uint32) uint32            { return SwapUint32(&x.v, v) }
+func (x *Uint32) CompareAndSwap(o, n uint32) bool { return CompareAndSwapUint32(&x.v, o, n) }
+
+type Uint64 struct{ v uint64 }
+
+func (x *Uint64) Load() uint64                    { return LoadUint64(&x.v) }
+func (x *Uint64) Store(v uint64)                  { StoreUint64(&x.v, v) }
+func (x *Uint64) Add(d uint64) uint64             { return AddUint64(&x.v, d) }
+func (x *Uint64) Swap(v uint64) uint64            { return SwapUint64(&x.v, v) }
+func (x *Uint64) CompareAndSwap(o, n uint64) bool { return CompareAndSwapUint64(&x.v, o, n) }
+
+type Bool struct{ v uint32 }
+
+func (x *Bool) Load() bool { return LoadUint32(&x.v) != 0 }
+func (x *Bool) Store(b bool) {
+	if b {
+		StoreUint32(&x.v, 1)
+	} else {
+		StoreUint32(&x.v, 0)
+	}
+}
+func (x *Bool) Swap(b bool) bool {
+	n := uint32(0)
+	if b {
+		n = 1
+	}
+	return SwapUint32(&x.v, n) != 0
+}
+func (x *Bool) CompareAndSwap(o, n bool) bool {
+	ou, nu := uint32(0), uint32(0)
+	if o {
+		ou = 1
+	}
+	if n {
+		nu = 1
+	}
+	return CompareAndSwapUint32(&x.v, ou, nu)
+}
